@@ -78,6 +78,9 @@ def _twin(spec, which=0):
     ]
     # an integer field whose bound is not an integer: the values between the bound and its truncation are invalid
     extra.append(dict(base, kind=["int", "port"][which % 2], key="zzfrac", opts=[{"min": 0.5}, {"max": 1.5, "min": 0}, {"min": -0.5, "max": 9.5}][which % 3] if which % 2 == 0 else {"min": 0.5}))
+    # a bytes field (and a typed list of bytes): offered bytes-like objects that are not bytes
+    extra.append(dict(base, kind="bytes", key="zzblob", opts={"encoding": ["base64", "hex"][which % 2]}))
+    extra.append(dict(base, kind="list", key="zzblobs", item={"kind": "bytes", "opts": {"encoding": "hex"}, "req": False, "validator": None}))
     # a plain nested section (two levels, nothing required): options of the generated command line that address one of its
     # fields while its siblings hold non-default values
     sub = {"kind": "schema", "key": "zzsec", "req": False, "children": [
@@ -125,12 +128,18 @@ def strategy(tier):
         expand = st.fixed_dictionaries({"op": st.sampled_from(["setattr", "setitem"]), "leaf": st.just(ci), "value": grow})
         fi = next(i for i, (p, nd) in enumerate(leaves) if p == ("zzfrac",))
         frac = st.fixed_dictionaries({"op": st.sampled_from(["setattr", "setitem"]), "leaf": st.just(fi), "value": st.sampled_from([0, "0", 1, 2, -1, 0.0, 1.0, 10, 9])})
+        from ..codec import Opaque
+        bi = next(i for i, (p, nd) in enumerate(leaves) if p == ("zzblob",))
+        bli = next(i for i, (p, nd) in enumerate(leaves) if p == ("zzblobs",))
+        odd = st.sampled_from([Opaque("bytearray:6162"), Opaque("memoryview:6162"), Opaque("bytearray:"), b"ab", "ab"])
+        blob = st.one_of(st.fixed_dictionaries({"op": st.sampled_from(["setattr", "setitem"]), "leaf": st.just(bi), "value": odd}),
+                         st.fixed_dictionaries({"op": st.sampled_from(["setattr", "setitem"]), "leaf": st.just(bli), "value": st.lists(odd, min_size=1, max_size=2)}))
         sec = {p: i for i, (p, nd) in enumerate(leaves) if p[0] == "zzsec"}
         fill = st.sampled_from([(("zzsec", "host"), "www.example.org"), (("zzsec", "tls", "cert"), "cert.pem"), (("zzsec", "tls", "ver"), 3), (("zzsec", "port"), 8443), (("zzsec", "on"), True)]).map(
             lambda t: {"op": "setitem", "leaf": sec[t[0]], "value": t[1]})
         over = st.lists(st.sampled_from([(("zzsec", "port"), "443"), (("zzsec", "tls", "ver"), "2"), (("zzsec", "host"), "h.example"), (("zzsec", "on"), True), (("zzsec", "tls", "cert"), "c2")]), min_size=1, max_size=2).map(
             lambda l: {"op": "cmdline", "args": [(sec[p], v) for p, v in l], "ignore": None})
-        return st.fixed_dictionaries({"spec": st.just(spec), "ops": st.lists(ops.weighted((12, base), (4, transfer), (2, expand), (2, fill), (2, over), (1, frac)), min_size=2, max_size=n)})
+        return st.fixed_dictionaries({"spec": st.just(spec), "ops": st.lists(ops.weighted((12, base), (4, transfer), (2, expand), (2, fill), (2, over), (1, frac), (1, blob)), min_size=2, max_size=n)})
     return st.tuples(worlds.schema_spec(tier), st.integers(0, len(STRICT_ITEMS) - 1)).map(lambda t: _twin(t[0], t[1])).flatmap(hist)
 
 
